@@ -114,6 +114,14 @@ def decode(event, strings, via):
             return ev
         event = renum(event)
         strings = {slot(k): v for k, v in strings.items()}
+    if via == 'v3-xml':
+        import plistlib
+        rev = {v: k for k, v in strings.items()}
+        blob = B.v3([(1, 10, 'A')], [[]], [B.v3_block(B.TAG_LOG_STRINGS, plistlib.dumps({'StringIndex': rev})),
+                                          B.v3_block(B.TAG_LOG_EVENTS, plistlib.dumps({'Events': [event]}))])
+        out = [x for x in KdBufParser({}, {}).parse(io.BytesIO(blob)) if isinstance(x, OsLogEvent)]
+        assert len(out) == 1
+        return out[0]
     rev = {v: k for k, v in strings.items()}
     blob = B.v3([(1, 10, 'A')], [[]], [B.v3_block(B.TAG_LOG_STRINGS, B.bplist({'StringIndex': rev})),
                                       B.v3_block(B.TAG_LOG_EVENTS, B.bplist({'Events': [event]}))])
@@ -384,11 +392,15 @@ class C16(Check):
                 for sub in itertools.combinations(KEYS, k):
                     self._rec(acc, set(sub), 'v3')
                     self._rec(acc, set(KEYS) - set(sub), 'v3')
+                    self._rec(acc, set(sub), 'v3-xml')          # the two log blocks written as XML property lists
                     self._rec(acc, set(sub), 'v3-sparse')
                     self._rec(acc, set(KEYS) - set(sub), 'v3-sparse')
                     for via in ('reversed', 'sorted'):
                         self._rec(acc, set(sub), via)
                         self._rec(acc, set(KEYS) - set(sub), via)
+            # identifiers of the signpost / loss / activity namespaces with every OTHER optional key absent: absent keys keep their defaults
+            for ns, ty in ((6, 0x41), (6, 0x82), (6, 0xc2), (7, 0), (2, 1), (3, 0x10)):
+                self._rec(acc, {'ti'}, 'direct', {'ti': pack_ti(ns, ty, 0, 0x80 if ns == 6 else 0, 5)})
             # loss-window time zones that differ from the record's own
             self._rec(acc, {'lsutz', 'leutz', 'lsud', 'leud'}, 'direct', {'utz': {'mw': 7, 'dt': 1}, 'lsutz': {'mw': -60, 'dt': 0}, 'leutz': {'mw': 300, 'dt': 1}})
         elif kind == 'dm1':
